@@ -4,7 +4,6 @@
    one.  No reference to Grammar.v. *)
 From V.model Require Import Base Deb822Lex Deb822Parse Deb822Edit Deb822Wrap WrapSpec.
 From V.proofs Require Import BaseP Deb822WrapP.
-Set Default Timeout 60.
 
 (* ---------------------------------------------------------------- token lists *)
 Definition ckind (k : kind) : bool := match k with WHITESPACE | VALUE | NEWLINE | COMMENT => true | _ => false end.
